@@ -225,6 +225,13 @@ func (p *Program) verifyFunc(key string, safetyOnly bool) *FuncResult {
 		e.curBlock = rp.block
 		renv := &SpecEnv{e: e, st: rp.st, vars: map[string]Val{}, old: env.old}
 		rienv := &SpecEnv{e: e, st: rp.st, vars: map[string]Val{}, old: ienv.old}
+		// postconditions may mention locals that are in scope at the return (ghost-free specs over
+		// intermediate values such as the split input lines)
+		rst := rp.st
+		rblock := fn.Blocks[rp.block]
+		renv.lookup = func(name string) (Val, bool) {
+			return fr.lookupNameAt(name, rst, rblock)
+		}
 		for _, prm := range fn.Params {
 			renv.vars[prm.Name()] = fr.vals[prm]
 		}
